@@ -101,7 +101,7 @@ def run(tier, seed, jobs):
                   "advances the folder mtime (the premise of the property); a `tick` advances the mtime only",
                   "deliveries happen between commands in this check; deliveries *inside* commands are schedule events of the S engine",
                   "sessions: A selected (INBOX or other), B selecting/idling on INBOX"],
-                 time_budget=70 if tier == "quick" else 1500)
+                 time_budget=70 if tier == "quick" else 900)
     from ..explore import sched
 
     per = []
